@@ -523,6 +523,8 @@ def _native_strings(tier="quick", seed=0):
     strings = [""]
     for n in range(1, maxlen + 1):
         strings += ["".join(x) for x in itertools.product(alphabet, repeat=n)]
+    # printable text that looks like an escape must stay as it is (only C0 controls are translated)
+    strings += ["_x0041_", "see _x000D_ here", "_x005F_", "\x07_x0007_", "_x0007", "x0007_", "__x0009__", "_X000A_", "a_b", "_x12_", "_x00GG_", "]]>", "_x0041_\n_x0042_\v_"]
 
     def esc(s):
         return re.sub(r"([\x00-\x08\x0B-\x1F])", lambda m: "_x%04X_" % ord(m.group(1)), s)
